@@ -25,7 +25,7 @@ def sprog(block):
         elif t == "ns":
             out.append(f"PNs {n(100 + s[1])} {sprog(s[2])}")
         elif t == "scan":
-            out.append(f"PScan {n(s[1])} {sprog(s[2])}")
+            out.append(f"PScan {n(s[1])} {'true' if len(s) > 3 and s[3] else 'false'} {sprog(s[2])}")
         else:
             out.append(f"PVmap {n(s[1])} {sprog(s[2])}")
     return "[" + "; ".join(out) + "]"
@@ -95,7 +95,7 @@ def run(ctx):
               and any(s[0] in ("ns", "scan", "vmap") for s in c["block"])})
     return {"cases": cases, "bad": bad, "worker_errs": [], "coq_errs": coq_errs,
             "coverage": {"evaluations": len(cases), "distinct_nontrivial": nt,
-                         "rule": "random programs of named saves, leaf-mode saves, deterministic ops, namespaces, scans (length 1-3) and vmaps (1-3 lanes) nested to depth 3 "
+                         "rule": "random programs of named saves, leaf-mode saves, deterministic ops, namespaces, scans (length 1-3, forward or reverse=True with the saved values depending on a carried step counter) and vmaps (1-3 lanes) nested to depth 3 "
                                  "(incl. namespaces around scans, scans in scans, vmap of scan, scan of vmap); each saved value encodes its site and dynamic instance; "
                                  "state(f), jit(state(f)) and seed(state(f)) are run, the result is compared with f run without state, and the three collected dictionaries "
                                  "are compared in Coq with the interpreter model and with the specification; non-trivial = distinct program using a namespace, scan or vmap",
